@@ -239,7 +239,7 @@ func (ssm *serverSessionMedia) readPacketRTCPPlay(payload []byte) bool {
 		if rr, ok := pkt.(*rtcp.ReceiverReport); ok {
 			for _, report := range rr.Reports {
 				format := ssm.findFormatByLocalSSRC(report.SSRC)
-				if format != nil {
+				if format != nil && format.rtpSender != nil {
 					format.rtpSender.ProcessReceptionReport(&report)
 				}
 			}
